@@ -28,6 +28,15 @@ fn main() {
         std::process::exit(64);
     }
     let prop = args[1].clone();
+    if prop == "sanitizer-selftest" {
+        // a deliberate heap read one element past the end: an AddressSanitizer build must end the process here with a
+        // report; any other build prints the marker line. The driver runs this before it trusts the sanitizer lane.
+        let v: Vec<u64> = (0..std::hint::black_box(16u64)).collect();
+        let p = v.as_ptr();
+        let x = unsafe { std::ptr::read_volatile(p.add(std::hint::black_box(16usize))) };
+        println!("selftest-survived {}", x & 1);
+        std::process::exit(0);
+    }
     if prop.starts_with("child-") {
         std::process::exit(props::child_main(&prop, &args[2..]));
     }
